@@ -221,11 +221,32 @@ class Ctx:
         return out, r
 
     # ------------------------------------------------------- trace validation
-    def validate(self, module, cfg, traces, consts=None, timeout=900, deque=False, label=None, max_rejects=4):
+    def validate(self, module, cfg, traces, consts=None, timeout=900, deque=False, label=None, max_rejects=4, parallel=None):
         """traces: list of dicts {id, scenario, events:[...]}. Concatenates them with Reset events
         and lets TLC check that the whole file is a behaviour of the trace spec.  On rejection,
         isolates the rejected trace(s) by bisection on the consumed-prefix high-water mark.
         Returns list of rejected trace dicts (each gets 'reject' info)."""
+        # big inputs: several JVMs side by side (each on a contiguous slice, so the order of the traces is kept)
+        nev = sum(len(t["events"]) for t in traces)
+        if parallel is None:
+            parallel = 1 if (nev < 20000 or len(traces) < 8) else min(8, len(traces), 1 + nev // 15000)
+        if parallel > 1:
+            import concurrent.futures
+            chunks, cur, acc, target = [], [], 0, nev / parallel
+            for t in traces:
+                cur.append(t)
+                acc += len(t["events"])
+                if acc >= target and len(chunks) < parallel - 1:
+                    chunks.append(cur)
+                    cur, acc = [], 0
+            if cur:
+                chunks.append(cur)
+            with concurrent.futures.ThreadPoolExecutor(max_workers=len(chunks)) as ex:
+                futs = [ex.submit(self.validate, module, cfg, ch, consts, timeout, deque, label, max_rejects, 1) for ch in chunks]
+                out = []
+                for f in futs:
+                    out += f.result()
+            return out
         rejected = []
         pending = list(traces)
         guard = 0
